@@ -324,7 +324,8 @@ ext_opaque!{
     ExPatParen => syn::PatParen, ExPatPath => syn::PatPath, ExPatRange => syn::PatRange, ExPatReference => syn::PatReference,
     ExPatRest => syn::PatRest, ExPatSlice => syn::PatSlice, ExPatStruct => syn::PatStruct, ExPatTuple => syn::PatTuple,
     ExPatTupleStruct => syn::PatTupleStruct, ExPatWild => syn::PatWild,
-    ExAt => syn::token::At,
+    ExAt => syn::token::At, ExImplRestriction => syn::ImplRestriction, ExTraitItemConst => syn::TraitItemConst,
+    ExTraitItemType => syn::TraitItemType, ExTraitItemMacro => syn::TraitItemMacro, ExBlock => syn::Block,
 }
 verus! {
 #[verifier::external_type_specification] pub struct ExSignature(syn::Signature);
@@ -348,6 +349,9 @@ verus! {
 #[verifier::external_type_specification] pub struct ExPat(syn::Pat);
 #[verifier::external_type_specification] pub struct ExPatIdent(syn::PatIdent);
 #[verifier::external_type_specification] pub struct ExPatType(syn::PatType);
+#[verifier::external_type_specification] pub struct ExItemTrait(syn::ItemTrait);
+#[verifier::external_type_specification] pub struct ExTraitItem(syn::TraitItem);
+#[verifier::external_type_specification] pub struct ExTraitItemFn(syn::TraitItemFn);
 }
 syn_node_toks!{
     syn::Signature, signature_toks;
